@@ -39,9 +39,9 @@ def gen_options(rng, box, idx):
     if rng.random() < 0.4:
         o["private"] = True
     if rng.random() < 0.5:
-        o["source"] = rng.choice(["src", "PTP", "true", "x y", "False", "é"])
+        o["source"] = rng.choice(["src", "PTP", "true", "x y", "False", "é", "@HDT"])
     if rng.random() < 0.5:
-        o["comment"] = rng.choice(["a comment", "true", "c", "100% #1", "FALSE"])
+        o["comment"] = rng.choice(["a comment", "true", "c", "100% #1", "FALSE", "@uploader x", "new", "m"])
     if rng.random() < 0.6:
         o["piece_length"] = rng.choice(["14", "15", "16384", "32768", "16"])
     if rng.random() < 0.7:
